@@ -159,7 +159,7 @@ def run(ctx):
     if not h:
         return
     rng = ctx.rng
-    N = 5000 if not ctx.thorough else 100000
+    N = 20000 if not ctx.thorough else 300000
     lines, meta = [], []
     for ln in _json.corpus_lines("C08"):
         lines.append(ln); meta.append((ln.split(" ")[1], False))
